@@ -734,7 +734,9 @@ type Spec struct {
 
 // Engine holds the analysis context.
 type Engine struct {
-	subBase   map[*ssa.Function]map[ssa.Value]ssa.Value
+	subBase map[*ssa.Function]map[ssa.Value]ssa.Value
+	// Checked: positions of the index / slice expressions on the input that any analysis of this engine has judged.
+	Checked   map[token.Pos]bool
 	W         *core.World
 	Inline    map[*ssa.Function]bool
 	Machines  map[*ssa.Function]string // summarised machines: callee -> name
